@@ -66,7 +66,7 @@ class Ctx:
         sumsrc = os.path.join(REPO, "go.sum")
         if os.path.exists(sumsrc):
             shutil.copy(sumsrc, os.path.join(HARNESS, "go.sum"))
-        cmd = ["go", "build", "-tags", tags, "-o", out]
+        cmd = ["go", "build"] + modfile_args(self.work) + ["-tags", tags, "-o", out]
         if race:
             cmd.append("-race")
         cmd.append("./cmd/vh")
@@ -364,6 +364,20 @@ class Ctx:
 
 def sig(d):
     return " ".join("%s=%s" % (k, d[k]) for k in sorted(d) if k not in ("l", "x", "y", "cp", "_trace", "_label"))
+
+
+def modfile_args(workdir):
+    """The registered commands build against /repo.  For trying a change without touching /repo (VERIF_REPO names a
+    scratch worktree) the harness is built with an alternate go.mod whose replace directive points there."""
+    if os.path.abspath(REPO) == "/repo":
+        return []
+    alt = os.path.join(workdir, "go.alt.mod")
+    with open(alt, "w") as f:
+        f.write(open(os.path.join(HARNESS, "go.mod")).read().replace("=> /repo", "=> " + os.path.abspath(REPO)))
+    sumsrc = os.path.join(HARNESS, "go.sum")
+    if os.path.exists(sumsrc):
+        shutil.copy(sumsrc, os.path.join(workdir, "go.alt.sum"))
+    return ["-modfile=" + alt]
 
 
 def load_known():
